@@ -382,7 +382,7 @@ def splice_item(asm, spec, probe=False):
             and (spec.spec or spec.ats):
         # vacuity probes: an `assert(false)` at the start of the body (and of
         # every loop body that carries an invariant) must be REJECTED.
-        pts = [it.body_open - base + 1]
+        pts = [it.body_open - base + 1] if probe != 'loops' else [None]
         for side, nth, anchor, text, ln in spec.ats:
             if text.lstrip().startswith('invariant'):
                 m = list(anchor_regex(anchor).finditer(item_src))[nth - 1]
@@ -390,6 +390,8 @@ def splice_item(asm, spec, probe=False):
                 if q >= 0:
                     pts.append(q + 1)
         for k, q in enumerate(pts):
+            if q is None:
+                continue
             ins.append((q, 10000 + k, '\nproof { assert(false); } // PROBE\n', spec.line,
                         ['PROBE:%s#%d' % (spec.selector, k)], 'probe')); order += 1
     for pos, _, text, ln, _, _ in ins:
@@ -497,6 +499,17 @@ def assemble(unit_dir, out_path, probe=False):
         elif 'overlay' in ent:
             for sp in parse_overlay(os.path.normpath(os.path.join(unit_dir, ent['overlay']))):
                 sp.module = ent.get('module', '')
+                # "only": take just these selectors (and @raw blocks whose text mentions "only_raw")
+                if 'only' in ent:
+                    if sp.raw is not None:
+                        if not ent.get('only_raw') or ent['only_raw'] not in sp.raw[0]:
+                            continue
+                    elif sp.selector not in ent['only']:
+                        continue
+                # "unstub": the same contracts, but PROVED here (the other unit assumes them)
+                if ent.get('unstub') and sp.raw is None:
+                    sp.assume = False
+                    sp.stub = False
                 n.entries.append(('item', sp))
 
     def emit(n, depth):
